@@ -1195,7 +1195,7 @@ def st_edit_genbank(tier):
             st.tuples(st.just("set"), idx, field, st.booleans()),
             st.tuples(st.just("del"), idx),
             st.tuples(st.just("set_field"), field),
-            st.tuples(st.just("set_field"), field),
+            st.tuples(st.just("set_field_at"), idx, field),
             st.tuples(st.just("set_annotation"), st.lists(st_gb_feature().map(lambda p: p[0]), max_size=2)),
             st.tuples(st.just("set_sequence"), st_seq_string("ambig", 80, min_size=1), st.integers(1, 10**6)),
             st.tuples(st.just("reload")),
@@ -1314,7 +1314,13 @@ def run_edit_genbank(case):
             del f[i]
             del model[i]
             nontrivial |= n >= 2
-        elif name == "set_field":
+        elif name in ("set_field", "set_field_at"):
+            if name == "set_field_at":
+                # set_field with the name of an existing field (replace, or ambiguous if duplicated)
+                if n == 0:
+                    continue
+                fld = [model[op[1] % n]["name"], op[2][1], op[2][2]]
+                op = ["set_field", fld]
             entry = _gb_model_field(op[1])
             before = [dict(m) for m in model]
             if set_field_model(entry["name"], entry):
@@ -1440,8 +1446,8 @@ SUBS = [
         "fasta",
         st_fasta,
         run_fasta,
-        quick=3200,
-        thorough=96000,
+        quick=2400,
+        thorough=72000,
         rule=">= 1 sequence longer than chars_per_line",
         clauses="FASTA: same (header, sequence) entries in the same order through the mapping interface, "
         "set_sequence(s)/get_sequence(s), write_iter/read_iter; symbols incl. '*' and empty sequences",
@@ -1450,8 +1456,8 @@ SUBS = [
         "fastq",
         st_fastq,
         run_fastq,
-        quick=3200,
-        thorough=96000,
+        quick=2400,
+        thorough=72000,
         rule="a sequence longer than chars_per_line, or a score line starting with '@' or '+'",
         clauses="FASTQ: entries in order with symbols and scores for every offset (33/64/named) and wrapping width",
     ),
@@ -1459,8 +1465,8 @@ SUBS = [
         "genbank",
         st_genbank,
         run_genbank,
-        quick=3200,
-        thorough=96000,
+        quick=2400,
+        thorough=72000,
         rule=">= 1 feature with a defect, several locations, a valueless qualifier or a value with blank, '/' or '='",
         clauses="GenBank/GenPept: feature keys, locations with strand and defects, qualifiers, sequence, sequence start",
     ),
@@ -1468,8 +1474,8 @@ SUBS = [
         "gff_annotation",
         st_gff_annotation,
         run_gff_annotation,
-        quick=2400,
-        thorough=72000,
+        quick=2000,
+        thorough=60000,
         rule=">= 1 feature with several (ID-grouped) locations or a qualifier with a reserved character",
         clauses="GFF3: set_annotation/get_annotation recover keys, locations with strand, qualifiers",
     ),
@@ -1477,8 +1483,8 @@ SUBS = [
         "gff_entries",
         st_gff_entries,
         run_gff_entries,
-        quick=2400,
-        thorough=72000,
+        quick=2000,
+        thorough=60000,
         rule=">= 1 entry with a reserved character in a column or attribute",
         clauses="GFF3: the 9 columns of every entry in order through the list interface (percent quoting, strand, phase, score)",
     ),
@@ -1486,8 +1492,8 @@ SUBS = [
         "edit_fasta",
         st_edit_fasta,
         run_edit_fasta,
-        quick=2400,
-        thorough=72000,
+        quick=2000,
+        thorough=60000,
         rule="a replace or delete on a file with >= 2 entries",
         clauses="editing a FastaFile keeps text, mapping view and a dict model consistent after every step",
     ),
@@ -1495,8 +1501,8 @@ SUBS = [
         "edit_fastq",
         st_edit_fastq,
         run_edit_fastq,
-        quick=2400,
-        thorough=72000,
+        quick=2000,
+        thorough=60000,
         rule="a replace or delete on a file with >= 2 entries",
         clauses="editing a FastqFile keeps text, mapping view and a dict model consistent after every step",
     ),
@@ -1504,8 +1510,8 @@ SUBS = [
         "edit_gff",
         st_edit_gff,
         run_edit_gff,
-        quick=1600,
-        thorough=48000,
+        quick=1200,
+        thorough=36000,
         rule="a set or delete on a file with >= 2 entries",
         clauses="insert/append/set/del (and directives) on a GFFFile keep text, list view and a list model consistent",
     ),
@@ -1513,8 +1519,8 @@ SUBS = [
         "edit_genbank",
         st_edit_genbank,
         run_edit_genbank,
-        quick=1600,
-        thorough=48000,
+        quick=1200,
+        thorough=36000,
         rule="a set or delete on a file with >= 2 fields, or a set_annotation with a non-trivial feature",
         clauses="insert/append/set/del/set_field/set_annotation/set_sequence on a GenBankFile keep text, field view and a list model consistent",
     ),
@@ -1522,8 +1528,8 @@ SUBS = [
         "general_io",
         st_general_io,
         run_general_io,
-        quick=1600,
-        thorough=32000,
+        quick=1200,
+        thorough=36000,
         rule=">= 2 sequences in one file, or a sequence longer than one line (80 characters)",
         clauses="save_sequence(s)/load_sequence(s) by file suffix (FASTA, FASTQ, GenBank, GenPept): same entries in the same order, same symbols",
     ),
